@@ -106,7 +106,3 @@ func b2i(b bool) int {
 	return 0
 }
 
-func cmdCheck(args []string) {
-	fmt.Fprintln(os.Stderr, "check: not implemented yet")
-	os.Exit(2)
-}
